@@ -177,8 +177,8 @@ CLAIMS = {
              "MIR_error_type), normal return asserts that none was.  Oracle ref/mir_modes_ref.h is written by instruction family from MIR.md / mir.h "
              "comments, not from insn_descs.  Register declaration errors as separate obligations.",
         note="Quick: 9 operand kinds per position, documented arity (window for ret/call/switch); thorough: 16 kinds, 0..6 operands.  State constructed "
-             "directly (not through the API); HTAB replaced by its abstract-map model (justified by C19).  KNOWN FINDING: documented undef-type "
-             "va_list memory is rejected (4 obligations).  NOT covered: overflow-branch adjacency 'separated only by register moves' (CBMC limits), "
+             "directly (not through the API); HTAB replaced by its abstract-map model (justified by C19).  All recorded findings repaired in /repo (incl. the documented undef-type "
+             "va_list memory operand).  NOT covered: overflow-branch adjacency 'separated only by register moves' (CBMC limits), "
              "message texts, the MIR_new_insn varargs wrapper.  Doc ambiguities followed the code and are listed in the evidence.",
         technique=TECH + "; exhaustive over opcodes, symbolic over the operand-kind space"),
     "C16": dict(
